@@ -1,12 +1,41 @@
+use sv::run::Tier;
+
 fn main() {
     let args: Vec<String> = std::env::args().collect();
+    sv::exec::install_panic_hook();
     if args.len() >= 2 && args[1] == "selftest" {
-        sv::sha::self_test().expect("sha self test");
-        sv::rm::time::self_test().expect("time self test");
-        let c = sv::calib::calibrate();
-        println!("calibrated {} vectors; failed {}", c.ok, c.failed.len());
-        for f in &c.failed {
-            println!("FAILED {}", f);
+        match sv::run::preflight() {
+            Ok(n) => println!("preflight ok: {} AWS vectors calibrated", n),
+            Err(e) => {
+                println!("preflight FAILED: {}", e);
+                std::process::exit(2);
+            }
+        }
+        return;
+    }
+    if args.len() >= 3 && args[1] == "replay" {
+        std::process::exit(sv::diag::replay_file(&args[2]));
+    }
+    if args.len() >= 4 && args[2] == "--replay" {
+        std::process::exit(sv::diag::replay_file(&args[3]));
+    }
+    if args.len() >= 3 {
+        let tier = match args[2].as_str() {
+            "quick" => Tier::Quick,
+            "thorough" => Tier::Thorough,
+            _ => {
+                eprintln!("usage: vh <ID> quick|thorough");
+                std::process::exit(2);
+            }
+        };
+        match sv::props::dispatch(&args[1], tier) {
+            Some(code) => std::process::exit(code),
+            None => {
+                eprintln!("unknown property {}", args[1]);
+                std::process::exit(2);
+            }
         }
     }
+    eprintln!("usage: vh <ID> quick|thorough | vh selftest");
+    std::process::exit(2);
 }
